@@ -192,11 +192,12 @@ fn run_conn(id: u64, limit: u64, stream: &[u8], ops: &[Arg], out: &mut Vec<Strin
         let l = op.l();
         let pre = format!("conn {} {} ", id, i);
         let line = catch_unwind(AssertUnwindSafe(|| match l[0].n() {
-            0 | 1 | 2 => {
+            // 13 = a read like 0 whose completed requests stay queued in the connection (no pop)
+            0 | 1 | 2 | 13 => {
                 let mut lines = vec![];
                 loop {
                     let plan = match l[0].n() {
-                        0 => ReadPlan::Take(l[1].n() as usize, l[2].n() as usize),
+                        0 | 13 => ReadPlan::Take(l[1].n() as usize, l[2].n() as usize),
                         1 => ReadPlan::Fail(l[1].n() as i32),
                         _ => ReadPlan::Take(l[1].n() as usize, 0),
                     };
@@ -222,7 +223,7 @@ fn run_conn(id: u64, limit: u64, stream: &[u8], ops: &[Arg], out: &mut Vec<Strin
                     });
                     let mut reqs = String::new();
                     let mut popped = vec![];
-                    while let Some(req) = conn.pop_parsed_request() {
+                    while let Some(req) = if l[0].n() == 13 { None } else { conn.pop_parsed_request() } {
                         reqs.push_str(" | ");
                         reqs.push_str(&request_s(&req, &files_s(&req)));
                         popped.push(req);
